@@ -43,10 +43,34 @@ func asTemplate(template string) callMigrator {
 	}
 }
 
-// migrates a function call by joining its parameters with the given delimiter
-func asJoin(delimiter string) callMigrator {
+// migrates a function call by joining its parameters with the given operator (of the given binding level)
+func asJoin(delimiter string, level int) callMigrator {
 	return func(funcName string, params []string) (string, error) {
-		return strings.Join(params, delimiter), nil
+		grouped := make([]string, len(params))
+		for i := range params {
+			if i == 0 {
+				grouped[i] = groupLeft(params[i], level)
+			} else {
+				grouped[i] = groupRight(params[i], level)
+			}
+		}
+		return strings.Join(grouped, delimiter), nil
+	}
+}
+
+// migrates a function call using a template in which parameters stand as operands, and so are grouped
+// unless their operators bind at least as tightly as the given levels
+func asOperandTemplate(template string, levels ...int) callMigrator {
+	tpl := asTemplate(template)
+	return func(funcName string, params []string) (string, error) {
+		grouped := make([]string, len(params))
+		for i := range params {
+			grouped[i] = params[i]
+			if i < len(levels) {
+				grouped[i] = group(params[i], levels[i])
+			}
+		}
+		return tpl(funcName, grouped)
 	}
 }
 
@@ -93,7 +117,7 @@ func paramDecremented() paramMigrator {
 		}
 
 		// if not return a decrementing expression
-		return fmt.Sprintf("%s - 1", param)
+		return fmt.Sprintf("%s - 1", groupLeft(param, levelAdditive))
 	}
 }
 
@@ -114,7 +138,7 @@ var callMigrators = map[string]callMigrator{
 	"char":              asIs(),
 	"clean":             asIs(),
 	"code":              asIs(),
-	"concatenate":       asJoin(` & `),
+	"concatenate":       asJoin(` & `, levelConcatenation),
 	"date":              asRename(`date_from_parts`),
 	"datedif":           asRename(`datetime_diff`),
 	"datevalue":         asRename(`date`),
@@ -122,7 +146,7 @@ var callMigrators = map[string]callMigrator{
 	"days":              asTemplate(`datetime_diff(%[2]s, %[1]s, "D")`),
 	"edate":             asTemplate(`datetime_add(%s, %s, "M")`),
 	"epoch":             asIs(),
-	"exp":               asTemplate(`2.718281828459045 ^ %s`),
+	"exp":               asOperandTemplate(`2.718281828459045 ^ %s`, levelNegation),
 	"false":             asTemplate(`false`), // becomes just a keyword
 	"field":             asParamMigrators(`field`, paramAsIs(), paramDecremented(), paramAsIs()),
 	"first_word":        asTemplate(`word(%s, 0)`),
@@ -143,7 +167,7 @@ var callMigrators = map[string]callMigrator{
 	"now":               asIs(),
 	"or":                asIs(),
 	"percent":           asIs(),
-	"power":             asTemplate(`%s ^ %s`),
+	"power":             asOperandTemplate(`%s ^ %s`, levelExponent, levelNegation),
 	"proper":            asRename(`title`),
 	"rand":              asIs(),
 	"randbetween":       asRename(`rand_between`),
@@ -151,13 +175,13 @@ var callMigrators = map[string]callMigrator{
 	"regex_group":       asRename(`regex_match`),
 	"remove_first_word": asIs(),
 	"rept":              asRename(`repeat`),
-	"right":             asTemplate(`text_slice(%[1]s, -%[2]s)`),
+	"right":             asOperandTemplate(`text_slice(%[1]s, -%[2]s)`, levelConcatenation, levelNegation),
 	"round":             asIs(),
 	"rounddown":         asRename(`round_down`),
 	"roundup":           asRename(`round_up`),
 	"second":            asTemplate(`format_datetime(%s, "s")`),
 	"substitute":        asRename(`replace`),
-	"sum":               asJoin(` + `),
+	"sum":               asJoin(` + `, levelAdditive),
 	"time":              asTemplate(`time_from_parts(%s, %s, %s)`),
 	"timevalue":         asTemplate(`time(%s)`),
 	"today":             asIs(),
